@@ -543,6 +543,21 @@ def umapPipe (P : Prog) (topName : Bytes) (p : Pipeline) : Bool :=
           | some t => umapBind (safe Γ) t ib.2
           | none => true)
 
+/-- no `disabled` modifier of the body is fed by a call of the same body that has a
+`disabled` modifier itself.  The output of a possibly-disabled producer may be
+null without any stage returning null; the real code refuses such a control when
+the program is invoked ("disabled modifier cannot be bound to a value that may be
+null" – `DisabledExp.makeDisabledExp`; "disabled cannot be bound to a null value"
+when the producer is statically disabled), unless the producer's own control is
+statically false.  (Third audit pass, A4.  Not covered: a control fed by an output
+of a nested PIPELINE whose producing call is conditionally disabled.) -/
+def ctlPipe (p : Pipeline) : Bool :=
+  p.calls.all fun c =>
+    match usingDisabled c.mods.usings with
+    | some (.call id _) =>
+      p.calls.all fun c' => c'.id != id || (usingDisabled c'.mods.usings).isNone
+    | _ => true
+
 /-- the whole program: every pipeline definition, the top-level call, and no
 reference that is composed into an untyped map -/
 def progOk (P : Prog) (top : CallStm) : Bool :=
@@ -550,14 +565,16 @@ def progOk (P : Prog) (top : CallStm) : Bool :=
     (match checkStm emptyEnv top with
       | some sh => okStm P emptyEnv top sh
       | none => false) &&
-    P.pipes.all (fun p => umapPipe P top.callee.name p)
+    P.pipes.all (fun p => umapPipe P top.callee.name p) &&
+    P.pipes.all ctlPipe
 
 /-- `progOk` without the hypothesis about composed bindings -/
 def progOkCore (P : Prog) (top : CallStm) : Bool :=
   P.pipes.all (okPipe P) && validTop top &&
     (match checkStm emptyEnv top with
       | some sh => okStm P emptyEnv top sh
-      | none => false)
+      | none => false) &&
+    P.pipes.all ctlPipe
 
 /-- what happens when the program is handed to the run time -/
 inductive Outcome where
